@@ -228,15 +228,21 @@ Proof.
   apply andb_true_iff in H as [H1 H2]. apply N.eqb_eq in H1. f_equal; auto.
 Qed.
 
+Lemma tryPreemptionPV_cases : forall fixed w pv o, In o (tryPreemptionPV fixed w pv) -> o_ok o = true ->
+  exists c, checkGuarantees w pv = true /\ In c (node_checks w pv) /\ o = tryWith fixed w pv c.
+Proof.
+  intros fixed w pv o Hin Hok. unfold tryPreemptionPV in Hin.
+  destruct (checkGuarantees w pv) eqn:Eg; cbn [negb] in Hin; [|destruct Hin as [<-|[]]; discriminate].
+  destruct (filter _ (node_checks w pv)) as [|c0 ct] eqn:Ef; [destruct Hin as [<-|[]]; discriminate|].
+  apply in_map_iff in Hin as (c & Ho & Hc). apply filter_In in Hc as [Hc _]. rewrite <- Ef in Hc. apply filter_In in Hc as [Hc _].
+  exists c. repeat split; auto.
+Qed.
 Lemma tryPreemption_cases : forall fixed w o, In o (tryPreemptionF fixed w) -> o_ok o = true ->
   exists pv c, findVictims w = Some pv /\ checkGuarantees w pv = true /\ In c (node_checks w pv) /\ o = tryWith fixed w pv c.
 Proof.
   intros fixed w o Hin Hok. unfold tryPreemptionF in Hin.
   destruct (findVictims w) as [pv|]; [|destruct Hin as [<-|[]]; discriminate].
-  destruct (checkGuarantees w pv) eqn:Eg; cbn [negb] in Hin; [|destruct Hin as [<-|[]]; discriminate].
-  destruct (filter _ (node_checks w pv)) as [|c0 ct] eqn:Ef; [destruct Hin as [<-|[]]; discriminate|].
-  apply in_map_iff in Hin as (c & Ho & Hc). apply filter_In in Hc as [Hc _]. rewrite <- Ef in Hc. apply filter_In in Hc as [Hc _].
-  exists pv, c. repeat split; auto.
+  destruct (tryPreemptionPV_cases fixed w pv o Hin Hok) as (c & H1 & H2 & H3). exists pv, c. auto.
 Qed.
 
 Lemma flat_pv_In : forall pv a, In a (flat_pv pv) -> exists qid vs, In (qid, vs) pv /\ In a vs.
@@ -319,9 +325,9 @@ Theorem reqnode_outcome_eligible : forall w nid order o k,
   wf_world w = true -> rn_try w nid order = Some o -> In k (o_victims o) ->
   exists a, find_alloc (w_allocs w) k = Some a /\ reqnode_victim_eligible w nid a = true.
 Proof.
-  intros w nid order o k Hwf H Hk. unfold rn_try in H.
+  intros w nid order o k Hwf H Hk. unfold rn_try, rn_order_ok in H.
   destruct (same_keys order _ && nodupN order) eqn:Es; [|discriminate]. apply andb_true_iff in Es as [Es _].
-  inversion H; subst o; clear H.
+  inversion H; subst o; clear H. unfold rn_try_order in Hk.
   destruct (rn_victims w (node_avail w nid) (victims_of w order)) as [|v0 vt] eqn:Ev; [contradiction|].
   cbn [o_victims] in Hk. apply in_map_iff in Hk as (a & Hka & Ha). rewrite <- Ev in Ha.
   unfold rn_victims in Ha. set (st := fold_left (rn_step w) _ _) in Ha.
